@@ -409,14 +409,15 @@ class Check:
         if self.tier == "thorough" and not broken:
             # independent re-check of the compiled proofs and everything they depend on, with the axiom list
             with Lock("coq", shared=True):
-                rc, out = sh("cd %s && timeout 3000 coqchk -silent -o -Q . GS GS.Properties.%s 2>&1 | tail -40" % (COQ, self.prop), timeout=3100)
-            m = re.search(r"\* Axioms:\s*(.*?)(?:\n\s*\*|\Z)", out, re.S)
-            ax = " ".join(m.group(1).split()) if m else None
-            self.coverage["coqchk"] = {"cmd": "coqchk -silent -o -Q . GS GS.Properties.%s" % self.prop, "axioms": ax, "ok": "Modules were successfully checked" in out}
-            if "Modules were successfully checked" not in out or ax != "<none>":
-                broken.append("coqchk: " + (("axioms: " + str(ax)) if "Modules were successfully checked" in out else out[-300:]))
+                rc, out = sh("cd %s && timeout 3000 coqchk -silent -o -Q . GS GS.Properties.%s 2>&1" % (COQ, self.prop), timeout=3100)
+            summ = dict((k.strip(), " ".join(v.split())) for k, v in re.findall(r"^\* ([^:\n]+):\s*(.*?)\s*(?=^\*|\Z)", out.split("CONTEXT SUMMARY")[-1], re.S | re.M))
+            want = ["Axioms", "Constants/Inductives relying on type-in-type", "Constants/Inductives relying on unsafe (co)fixpoints", "Inductives whose positivity is assumed"]
+            clean = rc == 0 and all(summ.get(k) == "<none>" for k in want)
+            self.coverage["coqchk"] = {"cmd": "coqchk -silent -o -Q . GS GS.Properties.%s" % self.prop, "exit": rc, "summary": summ}
+            if not clean:
+                broken.append("coqchk: exit %d, summary %s %s" % (rc, summ, "" if summ else out[-300:]))
             else:
-                self.log("coqchk: modules successfully checked, Axioms: <none>")
+                self.log("coqchk: exit 0; axioms, type-in-type, unsafe fixpoints, assumed positivity: all <none>")
         self.coq = res
         self.coverage["obligations"] = res["obligations"]
         self.coverage["discharged"] = 0 if broken else res["obligations"]
